@@ -245,6 +245,10 @@ func RunFull(p *Property, t *tape.Tape, script []json.RawMessage, tier string, w
 			msg := fmt.Sprint(r)
 			if strings.Contains(msg, "deadlock: all goroutines in bubble are blocked") || strings.Contains(msg, "deadlock: main bubble goroutine has exited") {
 				c.Fail("bubble-terminates", "goroutines-blocked-forever", "at the end of the run goroutines of the system under test are still blocked with no timer pending:\n%s", blockedGoroutines())
+			} else if i := strings.Index(msg, "simrt: driver would block for ever on a lock at "); i >= 0 {
+				// Engine F: a call of the driver into the system needs a lock whose holder can never run
+				// again (lock order cycle among parked goroutines, leaked lock)
+				c.Fail("no-lock-deadlock", "caller-blocked-at:"+strings.TrimSpace(msg[i+len("simrt: driver would block for ever on a lock at "):]), "a call into the system under test would wait for ever for a lock: no goroutine that could release it can run\n%s", blockedGoroutines())
 			} else {
 				c.Fail("no-panic", ClassifyPanic(msg), "panic on the simulation goroutine: %v\n%s", r, trimStack(debug.Stack()))
 			}
